@@ -590,6 +590,22 @@ func selectionSites(c *Ctx, ruleOri, ruleScan string, ihp *ssa.Function) {
 			cand, inc := call.Args[0], call.Args[1]
 			atom := u.ToBool(call)
 			guard := u.bdd.Or(u.ToBool(u.Eq(inc, u.mk("nil", "", inc.Typ))), atom)
+			// the decision to replace reads the incumbent only through the nil test, identity and the relation itself:
+			// any other test on the incumbent skips comparisons the relation would have decided
+			readsIncumbent := func(cond Ref) string {
+				for _, at := range u.AtomsOf(cond) {
+					if at == call || (at.Op == "call" && at.Aux == ihpName) {
+						continue
+					}
+					if at.Op == "eq" && ((at.Args[0] == inc && (at.Args[1].IsNil() || at.Args[1] == cand)) || (at.Args[1] == inc && (at.Args[0].IsNil() || at.Args[0] == cand))) {
+						continue
+					}
+					if u.Mentions(at, func(x *E) bool { return x == inc }) {
+						return u.Show(at)
+					}
+				}
+				return ""
+			}
 			// (a) store of cand into the location inc was loaded from
 			found := false
 			for _, ef := range s.Effects {
@@ -608,6 +624,12 @@ func selectionSites(c *Ctx, ruleOri, ruleScan string, ihp *ssa.Function) {
 					if leaf != cand && leaf != inc {
 						c.Fail(ruleOri, key+" -> "+ef.Addr.Aux, ef.Pos, "the incumbent is replaced by a value other than the candidate: "+clip(u.Show(leaf), 120))
 					}
+				}
+				if inc.Op != "nil" {
+					ri := readsIncumbent(u.bdd.And(ef.Cond, lc))
+					c.Check(ri == "", ruleOri, key+" -> "+ef.Addr.Aux+": incumbent read only through the relation", ef.Pos,
+						"replacement condition depends on the incumbent only via == nil, identity and IsHigherPriority",
+						"whether the candidate replaces the incumbent also depends on "+clip(ri, 120)+": candidates the relation ranks above the incumbent are skipped, so the selected rule can be outranked by another candidate and depends on the order of the candidates")
 				}
 				c.Check(u.bdd.Implies(u.bdd.And(ef.Cond, lc), guard), ruleOri, key+" -> "+ef.Addr.Aux, ef.Pos,
 					"the incumbent is overwritten only when it is nil or candidate.IsHigherPriority(incumbent)",
@@ -639,6 +661,10 @@ func selectionSites(c *Ctx, ruleOri, ruleScan string, ihp *ssa.Function) {
 									c.Fail(ruleOri, key+" -> loop-carried incumbent", site.Pos(), "the incumbent is replaced by a value other than the candidate: "+clip(u.Show(leaf), 120))
 									continue
 								}
+								ri := readsIncumbent(cnd)
+								c.Check(ri == "", ruleOri, key+" -> loop-carried incumbent: incumbent read only through the relation", site.Pos(),
+									"replacement condition depends on the incumbent only via == nil, identity and IsHigherPriority",
+									"whether the candidate replaces the incumbent also depends on "+clip(ri, 120)+": candidates the relation ranks above the incumbent are skipped")
 								c.Check(u.bdd.Implies(cnd, guard), ruleOri, key+" -> loop-carried incumbent", site.Pos(),
 									"the incumbent is replaced only when it is nil or candidate.IsHigherPriority(incumbent)",
 									"the incumbent is replaced on a path where it is neither nil nor outranked by the candidate: "+clip(u.ShowBool(u.bdd.And(cnd, u.bdd.Not(guard))), 300))
